@@ -286,10 +286,25 @@ def enum_joins(tier):
     for L in range(0, 6):
         for sq in itertools.product(range(3), repeat=L):
             out.append({"cx": cx, "seq": [[k, (i + k) % 2] for i, k in enumerate(sq)], "style": 1})
+    # 2x2x2: 12 interfaces, orders sampled by a fixed-seed generator (deterministic, independent of VERIF_SEED;
+    # the Hypothesis-driven subcheck join_orders_random samples further orders per seed)
+    import random
+    rnd = random.Random(20240914)
+    for v in range(3 if quick else 12):
+        cx = {"kind": "grid", "sizes": [[2, 2], [2, 2], [2, 2]] if v % 3 else [[2, 3], [2, 2], [3, 2]],
+              "gperm": v % 6, "rep": [[0, r[1]] for r in _rep_pattern(8, 3, v)]}
+        if _n_ifaces(cx) != 12:
+            raise RuntimeError("harness: 2x2x2 complex must have 12 interfaces")
+        for _ in range(100 if quick else 1700):
+            od = list(range(12))
+            rnd.shuffle(od)
+            out.append({"cx": cx, "seq": [[k, rnd.randrange(2)] for k in od], "style": v % 4})
     # 3x2: 7 interfaces, all 5040 orders
     for v in range(2 if quick else 6):
         cx = {"kind": "grid", "sizes": [[2, 2], [2, 2, 2]] if v != 1 else [[2, 3], [2, 3, 2]],
               "rep": _rep_pattern(6, 2, v)}
+        if _n_ifaces(cx) != 7:
+            raise RuntimeError("harness: 3x2 complex must have 7 interfaces")
         add_orders(cx, itertools.permutations(range(7)), style=v % 4)
     return out
 
@@ -906,7 +921,7 @@ def strat_ring_geo(draw, tier):
 SUBCHECKS = [
     Sub("join_orders_enum", check_joins, enum=enum_joins, quick=0, thorough=0, floor=200,
         rule="exhaustive: 2x1 (all 64 re-parametrisation pairs), 2x2 (24 orders x variants; all sequences with "
-             "repetition/omission up to length 5/6), rings k=3..6 (k! orders), 3x2 (5040 orders)",
+             "repetition/omission up to length 5/6), rings k=3..6 (k! orders), 3x2 (5040 orders), 2x2x2 (300 / 20400 fixed-seed sampled orders)",
         timeout_q=400, timeout_t=3000),
     Sub("join_orders_random", check_joins, strategy=lambda tier: strat_joins(tier), quick=1200, thorough=20000, shards=4,
         floor=100, rule="random grids up to 4x3 / 3x2x2 (2x2x2: 12 interfaces, sampled orders), rings k<=8, "
